@@ -179,7 +179,7 @@ func (p *copyProp) Gen(r *Rand, tier string, idx int) any {
 			o.SHA512 = false
 		}
 		cp.RegProfile = &RegProfile{ReferrersAPI: api, OCISubject: api, DigestHeader: true, Range: r.Bool(), MountOK: r.Bool(), Location: pick(r, []string{"relative", "absolute", "query"}),
-			RefCap: pick(r, []int{0, 0, 1, 2}), LinkForm: r.Intn(8)}
+			RefCap: pick(r, []int{0, 0, 1, 2}), LinkForm: r.Intn(8), BlobRedirect: r.Chance(0.15)}
 	}
 	if o.Fanout && cp.RegProfile != nil {
 		cp.RegProfile.RefCap = r.Range(1, 2)
